@@ -18,6 +18,7 @@ type Env struct {
 	vars   map[string]Value
 	cf     *ContractFile
 	locals func(name string) (Value, bool)
+	alias  map[string]string // loop invariants only: contract identifier -> (renamed) local, see rebind.go
 	clause Clause
 	allocAtCall string // for fresh() at call sites: allocation counter before the call
 	depth  int
@@ -172,6 +173,11 @@ func (e *Env) ident(name string) Value {
 	if e.locals != nil {
 		if v, ok := e.locals(name); ok {
 			return v
+		}
+		if al, ok := e.alias[name]; ok {
+			if v, ok := e.locals(al); ok {
+				return v
+			}
 		}
 	}
 	// package-level object of the contract's package
